@@ -410,7 +410,10 @@ func handleCommand(cmd *datastore.Request) (reply *datastore.Response, err error
 			if !found {
 				assign = nil
 			} else {
-				uuid := dvid.UUID(uuidStr)
+				var uuid dvid.UUID
+				if uuid, err = dvid.StringToUUID(uuidStr); err != nil {
+					return
+				}
 				assign = &uuid
 			}
 			if passcode, found, err = config.GetString("passcode"); err != nil {
@@ -511,7 +514,10 @@ func handleCommand(cmd *datastore.Request) (reply *datastore.Response, err error
 			if uuidStr == "" {
 				assign = nil
 			} else {
-				u := dvid.UUID(uuidStr)
+				var u dvid.UUID
+				if u, err = dvid.StringToUUID(uuidStr); err != nil {
+					return
+				}
 				assign = &u
 			}
 			var child dvid.UUID
@@ -528,7 +534,10 @@ func handleCommand(cmd *datastore.Request) (reply *datastore.Response, err error
 			if uuidStr == "" {
 				assign = nil
 			} else {
-				u := dvid.UUID(uuidStr)
+				var u dvid.UUID
+				if u, err = dvid.StringToUUID(uuidStr); err != nil {
+					return
+				}
 				assign = &u
 			}
 			var child dvid.UUID
